@@ -20,6 +20,7 @@ CROSS = {
     "C10-17": ["C09"], "C02-17": ["C10"], "C08-17": ["C02"],
     "C02-18": ["C20"], "C02-19": ["C20"], "C05-18": ["C07"], "C08-19": ["C07"],
     "C02-20": ["C20"], "C04-20": ["C12"], "C07-20": ["C11"], "C05-21": ["C05:thorough"],
+    "C08-20": ["C07"], "C08-21": ["C07"],
 }
 
 
@@ -41,8 +42,11 @@ def run(name, check):
 
 names = sorted(os.listdir(os.path.join(ROOT, "seeded")))
 names = [n for n in names if os.path.isdir(os.path.join(ROOT, "seeded", n))]
+only = set(sys.argv[1:])  # optional: re-run only these, keep the recorded outcome of the others
 jobs = []
 for n in names:
+    if only and n not in only:
+        continue
     own = n.split("-")[0]
     jobs.append((n, own))
     for c in CROSS.get(n, []):
@@ -52,6 +56,10 @@ with ThreadPoolExecutor(8) as ex:
 by = {}
 for name, check, code, clause in results:
     by.setdefault(name, []).append((check, code, clause))
+for n in names:
+    if n not in by:
+        old = json.load(open(os.path.join(ROOT, "seeded", n, "meta.json"))).get("checks_run", {})
+        by[n] = [(r["check"], r["exit"], r["clause"]) for r in old.get("results", [])]
 lines = ["| seeded change | breaks | summary | needs | quick check outcome |", "|---|---|---|---|---|"]
 detected = 0
 for n in names:
